@@ -11,7 +11,7 @@ func init() {
 	Register(&Prop{
 		ID:   "C49",
 		Pkgs: []string{"rpc"},
-		Decided: "the batch reply is written at one site only (doWrite), behind the test-and-set of the `wrote` flag, and the buffer's calls/resp/wrote are touched only under its mutex (doWrite is entered only from the locked write/respondWithError); in a single call every answer write (normal and timeout arm) lies inside a closure handed to the same sync.Once, and the normal arm writes nothing for a notification; notifications are pushed to the client only under the Notifier's mutex and are buffered until activate, and activate is called only after the reply was written (Once.Do / callBuffer.write precede the activation loop); a batch pushes no response object for a notification.",
+		Decided: "the batch reply is written at one site only (doWrite), behind the test-and-set of the `wrote` flag, and the buffer's calls/resp/wrote are touched only under its mutex (doWrite is entered only from the locked write/respondWithError); in a single call every answer write (normal and timeout arm) lies inside a closure handed to the same sync.Once, and neither arm writes anything for a notification; notifications are pushed to the client only under the Notifier's mutex and are buffered until activate, and activate is called only after the reply was written (Once.Do / callBuffer.write precede the activation loop); a batch pushes no response object for a notification.",
 		NotDec: "exactly-once under every timeout race as a history property (the structural guards are the mechanism; interleavings are not enumerated) and id echo as a value property.",
 		Rules:  "LOCKSET on batchCallBuffer and Notifier; ONCE (DOM) on the batch write site and WHO on writeJSONBatch/writeJSON call sites; ORDER reply ≺ activate",
 		MinObs: 45,
@@ -104,10 +104,13 @@ func c49(c *Ctx) {
 	// the normal arm writes nothing for a notification
 	for f := range inDo {
 		for _, s := range c.Calls(f, "("+r+".jsonWriter).writeJSON") {
-			as := callArgs(s.Instr.(*ssa.Call).Common())
-			if ConstBool(false)(as[2]) {
-				c.Dom("no-reply-to-notification", f, []Site{s}, "writeJSON(answer)", GCond("!msg.isNotification()", f, False(CallRes("(*"+r+".jsonrpcMessage).isNotification"))))
+			// both arms: the normal answer and the timeout error (a notification that times out
+			// must not be answered either)
+			what := "writeJSON(answer)"
+			if as := callArgs(s.Instr.(*ssa.Call).Common()); !ConstBool(false)(as[2]) {
+				what = "writeJSON(timeout error)"
 			}
+			c.Dom("no-reply-to-notification", f, []Site{s}, what, GCond("!msg.isNotification()", f, False(CallRes("(*"+r+".jsonrpcMessage).isNotification"))))
 		}
 	}
 
